@@ -97,7 +97,14 @@ impl GM {
 
 macro_rules! cond_fns {
     ($($name:ident = $k:expr),*) => {
-        $(fn $name(m: &GM, s: &S) -> bool { m.masks[$k][s.0 as usize] })*
+        $(fn $name(m: &GM, s: &S) -> bool {
+            // (a property condition is user code that runs between the checker's "has this
+            // property a discovery yet?" test and its insertion of one)
+            if m.d.yield_in_model {
+                stateright::verif_hooks::yield_point("model.condition");
+            }
+            m.masks[$k][s.0 as usize]
+        })*
     };
 }
 cond_fns!(cond0 = 0, cond1 = 1, cond2 = 2, cond3 = 3, cond4 = 4, cond5 = 5);
